@@ -1440,6 +1440,11 @@ class Router(NetworkNode, discriminator="router"):
         :param frame: The frame to be routed or forwarded.
         :param from_network_interface: The network interface from which the frame originated.
         """
+        # ARP is link-local: an ARP frame that is not for this router is never routed on (routing it makes the next
+        # router look up, and ARP for, its target again - without end)
+        if frame.udp and frame.is_arp:
+            return
+
         # check if frame is addressed to this Router but has failed to be received by a service of application at the
         # receive_frame stage
         if frame.ip:
